@@ -57,6 +57,19 @@ struct Rng
     inline bool coin() { return next() >> 63; }
 };
 
+// ------------------------------------------------------------------------------- output digests (fill differential, C18)
+// bucket -> wrapping sum of per-case output hashes; order independent, so process structure does not matter
+static std::map<std::string, uint64_t> g_digests;
+static bool g_digest_on = false;
+static inline void digest(const std::string &bucket, uint64_t case_hash, const void *p, size_t nbytes)
+{
+    if (!g_digest_on) return;
+    uint64_t h = case_hash ^ 0xD16E57;
+    const uint64_t *q = (const uint64_t *)p;
+    for (size_t i = 0; i < nbytes / 8; i++) h = mix64(h, q[i]);
+    g_digests[bucket] += h;
+}
+
 // ------------------------------------------------------------------------------- args
 struct Args
 {
@@ -98,6 +111,7 @@ static inline Args parse_args(int argc, char **argv)
     a.mode = a.get("mode");
     a.seed = a.getu("seed", 1);
     a.nofork = a.kv.count("nofork") > 0;
+    g_digest_on = a.kv.count("digest") > 0;
     std::string sh = a.get("shard", "0/1");
     sscanf(sh.c_str(), "%d/%d", &a.shard, &a.nshards);
     if (a.nshards < 1) a.nshards = 1;
@@ -257,8 +271,18 @@ class Report
             vc += jstr(kv.first) + ":" + u2s(kv.second);
         }
         vc += "}";
+        std::string dg = "{";
+        f = true;
+        for (auto &kv : g_digests)
+        {
+            if (!f) dg += ",";
+            f = false;
+            dg += jstr(kv.first) + ":" + u2s(kv.second);
+        }
+        dg += "}";
+        g_digests.clear();
         line(J().str("type", "summary").str("prop", prop).u("evaluations", evaluations).u("nontrivial_total", nontrivial_total)
-                 .raw("counters", c).raw("samples", sm).raw("nt_hashes", hs).raw("violation_counts", vc)
+                 .raw("counters", c).raw("samples", sm).raw("nt_hashes", hs).raw("violation_counts", vc).raw("digests", dg)
                  .raw("wall_s", std::to_string(now() - t0)).done());
         evaluations = 0; nontrivial_total = 0; counters.clear(); samples.clear(); nt_hashes.clear(); viol_seen.clear();
         t0 = now();
@@ -398,6 +422,7 @@ static inline void run_forked(Report &rep, uint64_t n, const ForkCfg &cfg,
             Report crep;
             crep.prop = rep.prop; crep.out = rep.out; crep.fd = rep.fd; crep.t0 = Report::now();
             crep.nt_cap = std::min<size_t>(rep.nt_cap, 2048); crep.sample_cap = rep.sample_cap;
+            g_digests.clear();
             if (g_child_start) g_child_start();
             for (size_t k = pos; k < end; k++)
             {
